@@ -162,6 +162,9 @@ class Package:
             return None
         if isinstance(node, ast.Constant):
             return copy.deepcopy(node)
+        if isinstance(node, ast.Call) and isinstance(node.func, ast.Name) and node.func.id == "slice" and 1 <= len(node.args) <= 3 and not node.keywords \
+                and all(isinstance(a, ast.Constant) and (a.value is None or type(a.value) is int) for a in node.args):
+            return copy.deepcopy(node)          # an immutable value built from constants
         if isinstance(node, ast.UnaryOp) and isinstance(node.op, ast.USub) and isinstance(node.operand, ast.Constant):
             return copy.deepcopy(node)
         if isinstance(node, (ast.Tuple, ast.List, ast.Set)):
